@@ -525,7 +525,8 @@ fn extract_aggregate(tree: &mut ParserExpressionTree) -> (Option<ParserExpressio
     };
 
     match &mut tree.tree {
-        ParserExpressionTreeData::ColumnAccess(name) => (Some(ParserExpressionTreeData::ColumnAccess(name.clone())), true),
+        // A column next to the aggregate (a part of the group key) is neither the aggregate nor replaced by its value
+        ParserExpressionTreeData::ColumnAccess(_) => (None, false),
         ParserExpressionTreeData::Call { name, arguments, distinct } => {
             let name_lowercase = name.to_lowercase();
             if AGGREGATE_FUNCTIONS.contains(&name_lowercase) {
